@@ -6,6 +6,7 @@ CONSTANTS
   Das = {2, 3, 4}
   Rs = {1, 2}
   JointQ = FALSE
+  Bound = FALSE
   Offs = {0, 1, 2, 3}
 INIT Init
 NEXT Next
